@@ -87,7 +87,11 @@ class ThreadWorker(Worker):
         if not self.is_alive():
             return True
 
-        foreign_raise(self._ident, WorkerTerminatedError)
+        try:
+            foreign_raise(self._ident, WorkerTerminatedError)
+        except ValueError:
+            pass # the thread has finished since the check above, there is nobody to deliver the request to
+
         self._release_child()
         self._child.join(timeout)
         if self._child.is_alive():
